@@ -387,6 +387,27 @@ fn one_case(ctx: &Ctx, case: u64, l: &mut Local) {
             json!(sd_hash_of(&parts.jwt, &[])),
             json!(model::digest_of(&parts.jwt)),
             json!(sd_hash_of(&parts.jwt, &parts.disclosures).to_uppercase()),
+            // the right digest function over ALMOST the right string: no closing '~', a doubled one,
+            // a leading one, the disclosures alone, the whole presentation incl. an empty KB slot,
+            // the JSON document; and the right string under another function / encoding
+            json!(model::digest_of(&format!("{}{}", parts.jwt, parts.disclosures.iter().map(|d| format!("~{d}")).collect::<String>()))),
+            json!(model::digest_of(&format!("{}{}~~", parts.jwt, parts.disclosures.iter().map(|d| format!("~{d}")).collect::<String>()))),
+            json!(model::digest_of(&format!("~{}{}~", parts.jwt, parts.disclosures.iter().map(|d| format!("~{d}")).collect::<String>()))),
+            json!(model::digest_of(&parts.disclosures.iter().map(|d| format!("{d}~")).collect::<String>())),
+            json!(model::digest_of(&parts.disclosures.join("~"))),
+            json!(model::digest_of(&Parts { jwt: parts.jwt.clone(), disclosures: parts.disclosures.clone(), kb: None }.to_json(0).unwrap_or_default())),
+            {
+                use base64::Engine;
+                use sha2::Digest;
+                let right = format!("{}{}~", parts.jwt, parts.disclosures.iter().map(|d| format!("~{d}")).collect::<String>());
+                let h = sha2::Sha256::digest(right.as_bytes());
+                match r.below(4) {
+                    0 => json!(base64::engine::general_purpose::STANDARD.encode(h)),
+                    1 => json!(base64::engine::general_purpose::URL_SAFE.encode(h)),
+                    2 => json!(h.iter().map(|b| format!("{b:02x}")).collect::<String>()),
+                    _ => json!(model::b64e(&sha2::Sha512::digest(right.as_bytes()))),
+                }
+            },
         ];
         let honest = json!(sd_hash_of(&parts.jwt, &parts.disclosures));
         for (i, w) in wrongs.into_iter().enumerate() {
@@ -457,6 +478,42 @@ fn one_case(ctx: &Ctx, case: u64, l: &mut Local) {
                     if let Ok(mut p2) = Parts::parse(fmt, &p2) {
                         p2.kb = Some(honest_kb.clone());
                         must_reject(l, "replay-other-credential", 0, &p2, a, n, 0);
+                    }
+                }
+            }
+        }
+    }
+    // 7b. JSON only: a withheld disclosure smuggled in through an unknown / JWS-family member after
+    // the holder signed (`header.disclosures`, `unprotected.disclosures`, ...): either refused, or
+    // accepted with exactly the claims of the honest presentation
+    if fmt == Fmt::Json {
+        if let (Some(extra), Outcome::Ok(honest_claims)) = (issued.parts.disclosures.iter().find(|d| !parts.disclosures.contains(d)), &control.out) {
+            if let Some(Ok(Value::Object(doc))) = parts.to_json(0).map(|t| serde_json::from_str::<Value>(&t)) {
+                for (k, (mname, mval)) in [
+                    ("header", json!({"disclosures": [extra]})),
+                    ("unprotected", json!({"disclosures": [extra]})),
+                    ("header", json!({"disclosures": [extra], "kb_jwt": honest_kb})),
+                    ("extra_disclosures", json!([extra])),
+                    ("_sd", json!([extra])),
+                    ("Disclosures", json!([extra])),
+                ].into_iter().enumerate() {
+                    let mut d2 = doc.clone();
+                    d2.insert(mname.to_string(), mval);
+                    let text = Value::Object(d2).to_string();
+                    let v = api::verify(&text, &resolver, Some((&aud, &nonce)), fmt);
+                    l.evals += 1;
+                    l.distinct(crate::rng::mix(case ^ gen::hash_str("smuggled") ^ k as u64));
+                    match &v.out {
+                        Outcome::Err(_) => l.count("attack.smuggled-disclosure.rejected"),
+                        Outcome::Ok(c) if c == honest_claims => l.count("attack.smuggled-disclosure.ignored"),
+                        Outcome::Ok(c) => l.violate(Violation {
+                            subcheck: "key-binding-bypassed".into(),
+                            class: format!("withheld disclosure added in the JSON member `{mname}` after signing"),
+                            observed: "Ok with claims the holder did not present".into(),
+                            case,
+                            detail: json!({"credential": desc, "member": mname, "document": text, "claims": c, "honest_claims": honest_claims}),
+                        }),
+                        pn @ Outcome::Panic(..) => l.violate(Violation { subcheck: "panic".into(), class: format!("JSON member `{mname}`"), observed: pn.panic_signature().unwrap(), case, detail: json!({"document": text}) }),
                     }
                 }
             }
